@@ -9,6 +9,8 @@ import Gv.Model.Eval
 import Gv.Model.Gen
 import Gv.Proofs.GenLemmas
 import Gv.Model.Signature
+import Gv.Proofs.CustomFirst
+import Gv.Proofs.ErrPath
 
 namespace Gv.Props.C06
 open Gv Gv.Str Gv.Gen Gv.Eval
@@ -320,5 +322,144 @@ theorem C06_map_function_at_its_field (fs : List (S × FieldMapping)) (t : S) (g
     simp only [Bool.false_eq_true, if_false]
     rw [lookup_none_of_not_any t fs hany, lookup_append_new t _ fs hany]
     rfl
+
+/-! ### Every occurrence, as ONE theorem over whole plans
+
+`CustomCheck.customsFirst p` is a decidable check on the plans (Gv/Model/CustomCheck.lean; the plans of `Gv.Gen` pass it):
+it walks every method body with the types of each position.  `Root p gm c s t`: `c : s → t` is the root of the body of
+`gm`; `Occ p gm c s t c' s' t'`: the conversion position `c' : s' → t'` occurs strictly below `c`, at any depth (through
+pointers, lists, maps, struct fields, underlying types, constructors — Gv/Proofs/CustomFirst.lean).  For ALL checked
+programs, methods and positions: -/
+
+open Gv.CustomCheck Gv.Sound
+
+/-- **C06_every_occurrence**: a position whose pair has an extend function (contexts available) IS the call of exactly
+that function with the declared argument roles, and evaluates — for every frame, source value and fuel — to that function's
+result on the value at the position and the caller's context arguments of the declared types, in declared order; when no
+extend function exists but a declared method does, it IS the call of that method and yields that method's result (the
+callee receiving the caller's context values of its declared context types); a function whose contexts are not available
+never occurs -/
+theorem C06_every_occurrence (p : Program) (hp : customsFirst p = true) (m : Nat) (gm : GenMethod) (hm : p.methods[m]? = some gm)
+    (c : Conv) (s t : Ty) (hr : Root p gm c s t) (c' : Conv) (s' t' : Ty) (ho : Occ p gm c s t c' s' t') :
+    (∀ i, indexGet (extendIndex p.conv) s' t' gm.contexts = .hit i →
+      ∃ d args re w, p.conv.customs[i]? = some d ∧ c' = .call (.custom i) args re w ∧ Slots d.args args ∧
+        ∀ (fr : Frame) (fuel : Nat) (src old : Val) (n : Nat), ctxAvail fr d.args = true → p.sem.isCtor d.name = false →
+          p.sem.failsOn d.name ((declArgVals fr src d.args).headD .nil) = false →
+          evalConv p (fuel+1) fr c' src old n = .ok (.tok d.name (declArgVals fr src d.args), n)) ∧
+    (∀ j, indexGet (extendIndex p.conv) s' t' gm.contexts = .none → indexGet (declIndex p.methods) s' t' gm.contexts = .hit j →
+      ∃ gm' args re w, p.methods[j]? = some gm' ∧ c' = .call (.method j) args re w ∧ Slots gm'.args args ∧
+        ∀ (fr : Frame) (fuel : Nat) (src old : Val) (n : Nat) (r : Val × Nat), ctxAvail fr gm'.args = true →
+          Eval.callMethod p fuel j src (declCtxVals fr gm'.args) n = .ok r →
+          evalConv p (fuel+1) fr c' src old n = .ok r) ∧
+    indexGet (extendIndex p.conv) s' t' gm.contexts ≠ .unsatisfied := by
+  refine ⟨?_, ?_, every_occurrence_satisfied p hp m gm hm c s t hr c' s' t' ho⟩
+  · intro i hi
+    obtain ⟨d, args, re, w, hd, rfl, hs⟩ := every_occurrence_custom p hp m gm hm c s t hr c' s' t' ho i hi
+    exact ⟨d, args, re, w, hd, rfl, hs, fun fr fuel src old n hctx hc hf => evalCall_custom p fr fuel i d args re w src old n hd hs hctx hc hf⟩
+  · intro j hx hj
+    obtain ⟨gm', args, re, w, hg, rfl, hs⟩ := every_occurrence_method p hp m gm hm c s t hr c' s' t' ho j hx hj
+    refine ⟨gm', args, re, w, hg, rfl, hs, ?_⟩
+    intro fr fuel src old n r hctx hcall
+    rw [← ctxValsOf_slots fr gm'.args args hs] at hcall
+    exact evalCall_method p fr fuel j gm'.args args re w src old n r hs hctx hcall
+
+/-- the root of a body is the one position `buildMethod` does not look up (a method does not call itself for its own
+pair); when an extend function exists for the method's own pair, the method is the delegation to it -/
+theorem C06_root_delegates (p : Program) (hp : customsFirst p = true) (m : Nat) (gm : GenMethod) (hm : p.methods[m]? = some gm) (i : Nat)
+    (hi : indexGet (extendIndex p.conv) gm.source gm.target gm.contexts = .hit i) :
+    (∃ args re, gm.body = some (.delegate i args re)) ∨ (∃ sp c, gm.body = some (.update sp c)) :=
+  root_delegates p hp m gm hm i hi
+
+/-- **C06_contexts_never_source** (over whole plans): at every occurrence of a pair with an extend function, slot by slot
+of the call: the slot of a declared context argument is `ctx` of its declared type, and what it receives is the caller's
+context argument whatever the conversion source is; the slot of the declared source argument is `source`, and what it
+receives is the value at the position whatever the contexts are — no context is ever passed as a source, no source as a
+context -/
+theorem C06_contexts_never_source (p : Program) (hp : customsFirst p = true) (m : Nat) (gm : GenMethod) (hm : p.methods[m]? = some gm)
+    (c : Conv) (s t : Ty) (hr : Root p gm c s t) (c' : Conv) (s' t' : Ty) (ho : Occ p gm c s t c' s' t') (i : Nat)
+    (hi : indexGet (extendIndex p.conv) s' t' gm.contexts = .hit i) :
+    ∃ d args re w, p.conv.customs[i]? = some d ∧ c' = .call (.custom i) args re w ∧
+      ∀ (k : Nat) (a : Arg) (x : CallArg), d.args[k]? = some a → args[k]? = some x →
+        (a.use = .context → x = .ctx a.ty ∧ ∀ (fr : Frame) (src src' : Val), argOf fr src x = argOf fr src' x) ∧
+        (a.use = .source → x = .source ∧ ∀ (fr fr' : Frame) (src : Val), argOf fr src x = argOf fr' src x) := by
+  obtain ⟨d, args, re, w, hd, hc, hs⟩ := every_occurrence_custom p hp m gm hm c s t hr c' s' t' ho i hi
+  exact ⟨d, args, re, w, hd, hc, fun k a x ha hx => slots_routing hs k a x ha hx⟩
+
+/-! non-vacuity: a declared method over a struct with a field, a slice (through a nested generated method) and a map of
+the pair (string, int), which has the extend function `Atoi` -/
+
+def exFi (n : String) : FieldInfo := { name := n.toList, exported := true, embedded := false, pkg := [] }
+def exNd (id : String) (u : Ty) : NamedDecl :=
+  { id := id.toList, pkgPath := "p".toList, pkgName := "p".toList, name := id.toList, exported := true, underlying := u, methods := [], consts := [] }
+def exEnv : TEnv := [
+  exNd "Item" (.struct (.cons (exFi "V") (.basic .string) .nil)),
+  exNd "OItem" (.struct (.cons (exFi "V") (.basic .int) .nil)),
+  exNd "In" (.struct (.cons (exFi "Name") (.basic .string) (.cons (exFi "Items") (.slice (.named "Item".toList))
+    (.cons (exFi "M") (.map (.basic .string) (.basic .string)) .nil)))),
+  exNd "Out" (.struct (.cons (exFi "Name") (.basic .int) (.cons (exFi "Items") (.slice (.named "OItem".toList))
+    (.cons (exFi "M") (.map (.basic .int) (.basic .int)) .nil))))]
+def exAtoi : FnDef :=
+  { name := "Atoi".toList, pkgPath := "p".toList, source := some (.basic .string), target := .basic .int,
+    args := [{ name := "s".toList, use := .source, ty := .basic .string }], contexts := [], returnError := false }
+def exW : Wrap := { mode := .none, path := [] }
+def exAtoiCall : Conv := .call (.custom 0) [.source] false exW
+def exField (n : String) (cv : Conv) : FieldPlan := .mapped n.toList [n.toList] [false] false false cv .none
+def exOuterBody (name : Conv) : Conv :=
+  .structc (.cons (exField "Name" name)
+    (.cons (exField "Items" (.list (.named "OItem".toList) true true (.call (.method 1) [.source] false exW)))
+      (.cons (exField "M" (.mapc (.basic .int) (.basic .int) exAtoiCall exAtoiCall)) .nil))) false
+def exInnerBody : Conv := .structc (.cons (exField "V" exAtoiCall) .nil) false
+def exMethod (name : String) (s t : String) (explicit : Bool) (body : Conv) : GenMethod :=
+  { name := name.toList, source := .named s.toList, target := .named t.toList,
+    args := [{ name := "source".toList, use := .source, ty := .named s.toList }], contexts := [],
+    returnError := false, updateTarget := false, explicit := explicit, dirty := false, originPath := [], originName := [],
+    cfg := { common := {} }, body := some (.convert body) }
+def exProgramWith (name : Conv) : Program :=
+  { conv := { env := exEnv, common := {}, outputPkg := "p".toList, customs := [exAtoi], extend := [0], orc := {} },
+    methods := [exMethod "Convert" "In" "Out" true (exOuterBody name), exMethod "ItemToOItem" "Item" "OItem" false exInnerBody] }
+def exProgram : Program := exProgramWith exAtoiCall
+
+example : customsFirst exProgram = true := by decide
+/-- the checker discriminates: the automatic conversion at a position of the pair is rejected -/
+example : customsFirst (exProgramWith (.cast .ident)) = false := by decide
+
+def exGm0 : GenMethod := exMethod "Convert" "In" "Out" true (exOuterBody exAtoiCall)
+
+/-- an occurrence at depth 2: the key conversion of the map in field `M` of the outer method, a position of the pair
+(string, int) -/
+example : Occ exProgram exGm0 (exOuterBody exAtoiCall) (.named "In".toList) (.named "Out".toList) exAtoiCall (.basic .string) (.basic .int) :=
+  .step (c1 := .mapc (.basic .int) (.basic .int) exAtoiCall exAtoiCall) (s1 := .map (.basic .string) (.basic .string)) (t1 := .map (.basic .int) (.basic .int))
+    (.field (tf := exFi "M") (tfs := (.cons (exFi "Name") (.basic .int) (.cons (exFi "Items") (.slice (.named "OItem".toList))
+        (.cons (exFi "M") (.map (.basic .int) (.basic .int)) .nil)))) rfl (.there (.there .here)) rfl rfl)
+    (.child (.mapKey (sv := .basic .string) (tv := .basic .int) rfl rfl))
+
+example : Root exProgram exGm0 (exOuterBody exAtoiCall) (.named "In".toList) (.named "Out".toList) := .convert rfl
+example : Gen.indexGet (Gen.extendIndex exProgram.conv) (.basic .string) (.basic .int) exGm0.contexts = .hit 0 := rfl
+
+/-- the frame hypothesis of the semantic part: `Atoi` declares no context, so every frame supplies them all -/
+example (fr : Frame) : ctxAvail fr exAtoi.args = true := rfl
+
+def exValue : Val :=
+  .struct [("Name".toList, .basic "5".toList),
+           ("Items".toList, .slice (.src 0) [.struct [("V".toList, .basic "7".toList)]]),
+           ("M".toList, .map (.src 1) [(.basic "1".toList, .basic "2".toList)])]
+
+def exTok (s : String) : Val := .tok "Atoi".toList [.basic s.toList]
+
+/-- the stamped results: `Atoi` at depth 1 (field), depth 2 (map key and value) and inside the nested generated method -/
+example : Eval.callMethod exProgram 12 0 exValue [] 0 = .ok (.struct [("Name".toList, exTok "5"),
+    ("Items".toList, .slice (.fresh 0) [.struct [("V".toList, exTok "7")]]),
+    ("M".toList, .map (.fresh 1) [(exTok "1", exTok "2")])], 2) := by
+  have hz1 : zeroVal exEnv 64 (Ty.named ['O', 'u', 't']) =
+      .struct [("Name".toList, .basic "0".toList), ("Items".toList, .nil), ("M".toList, .nil)] := by
+    simp [zeroVal, zeroVal.zeroFields, under, exEnv, TEnv.find, exNd, exFi, Fields.toList, zeroBasic]
+  have hz2 : zeroVal exEnv 64 (Ty.named ['O', 'I', 't', 'e', 'm']) = .struct [("V".toList, .basic "0".toList)] := by
+    simp [zeroVal, zeroVal.zeroFields, under, exEnv, TEnv.find, exNd, exFi, Fields.toList, zeroBasic]
+  unfold Eval.callMethod
+  simp [hz1, hz2, exProgram, exProgramWith, exMethod, exOuterBody, exInnerBody, exField, exAtoiCall, exValue, exAtoi, exTok, evalConv, evalConv_list_make,
+    evalFields, evalElems, evalEntries, walk, fieldOf, setField, normStruct,
+    Val.isAbsent, bind, StateT.bind, pure, StateT.pure, List.lookup, Eval.callMethod, argOf, List.filterMapM,
+    List.filterMapM.loop, freshLoc]
+
 
 end Gv.Props.C06
